@@ -11,7 +11,6 @@ import (
 	"path/filepath"
 	"sort"
 	"strings"
-	"sync"
 	"time"
 
 	"github.com/sheerbytes/sheerbytes/internal/transfer"
@@ -184,6 +183,8 @@ type xferCfg struct {
 	streams   int
 	resume    bool
 	quicLike  bool // stream visibility as in QUIC
+	conns     int  // number of connections (NewMultiConn when > 1)
+	rootDir   bool // receiver creates <out>/<manifest root> (NoRootDir = false)
 	timeout   time.Duration
 	sendOpts  func(*transfer.Options)
 	recvOpts  func(*transfer.Options)
@@ -199,6 +200,46 @@ type xferResult struct {
 }
 
 func runXfer(srcDir, outDir string, c xferCfg) xferResult {
+	nconn := c.conns
+	if nconn < 1 {
+		nconn = 1
+	}
+	var as, bs []*memnet.Conn
+	var sc, rc []transfer.Conn
+	for i := 0; i < nconn; i++ {
+		a, b := memnet.Pair(memnet.Mode{VisibleAtOpen: !c.quicLike, BufferLimit: 1 << 16})
+		if c.onConns != nil && i == 0 {
+			c.onConns(a, b)
+		}
+		as, bs = append(as, a), append(bs, b)
+		sc, rc = append(sc, tconn{a}), append(rc, tconn{b})
+	}
+	sconn, rconn := sc[0], rc[0]
+	if nconn > 1 {
+		sconn, _ = transfer.NewMultiConn(sc)
+		rconn, _ = transfer.NewMultiConn(rc)
+	}
+	return runXferOn(srcDir, outDir, sconn, rconn, c,
+		func(sender bool, graceful bool) {
+			for i := range as {
+				if sender {
+					as[i].Close()
+				} else {
+					bs[i].Close()
+				}
+			}
+		},
+		func() {
+			for i := range as {
+				as[i].Fail(memnet.ErrAbrupt, memnet.ErrAbrupt)
+			}
+		})
+}
+
+// runXferOn runs the real sender on sconn and the real receiver on rconn.
+// closeSide(sender, _) is what the application does when that side has returned
+// (it closes its connection); kill tears everything down after the watchdog.
+func runXferOn(srcDir, outDir string, sconn, rconn transfer.Conn, c xferCfg, closeSide func(sender, graceful bool), kill func()) xferResult {
 	var res xferResult
 	m, err := manifest.Scan(srcDir)
 	if err != nil {
@@ -206,10 +247,6 @@ func runXfer(srcDir, outDir string, c xferCfg) xferResult {
 		return res
 	}
 	res.manifest = m
-	a, b := memnet.Pair(memnet.Mode{VisibleAtOpen: !c.quicLike, BufferLimit: 1 << 16})
-	if c.onConns != nil {
-		c.onConns(a, b)
-	}
 	if c.timeout == 0 {
 		c.timeout = 10 * time.Second
 	}
@@ -224,25 +261,19 @@ func runXfer(srcDir, outDir string, c xferCfg) xferResult {
 		c.cancelReceiver(rcancel)
 	}
 	so := transfer.Options{ChunkSize: uint32(c.chunkSize), ParallelFiles: c.streams, Resume: c.resume, HashAlg: "crc32c"}
-	ro := transfer.Options{Resume: c.resume, NoRootDir: true, HashAlg: "crc32c", ParallelFiles: c.streams}
+	ro := transfer.Options{Resume: c.resume, NoRootDir: !c.rootDir, HashAlg: "crc32c", ParallelFiles: c.streams}
 	if c.sendOpts != nil {
 		c.sendOpts(&so)
 	}
 	if c.recvOpts != nil {
 		c.recvOpts(&ro)
 	}
-	var wg sync.WaitGroup
 	sdone := make(chan error, 1)
 	rdone := make(chan error, 1)
 	t0 := time.Now()
-	wg.Add(2)
+	go func() { sdone <- transfer.SendManifestMultiStream(sctx, sconn, srcDir, m, so) }()
 	go func() {
-		defer wg.Done()
-		sdone <- transfer.SendManifestMultiStream(sctx, tconn{a}, srcDir, m, so)
-	}()
-	go func() {
-		defer wg.Done()
-		_, err := transfer.RecvManifestMultiStream(rctx, tconn{b}, outDir, ro)
+		_, err := transfer.RecvManifestMultiStream(rctx, rconn, outDir, ro)
 		rdone <- err
 	}()
 	timer := time.After(c.timeout)
@@ -250,23 +281,19 @@ func runXfer(srcDir, outDir string, c xferCfg) xferResult {
 		select {
 		case err := <-sdone:
 			res.sendErr, res.sendDone = err, true
-			// the app closes the connection once its side has returned
-			if err == nil {
-				// sender finished: leave the connection open for the receiver to drain
-			} else {
-				a.Close()
+			if err != nil {
+				closeSide(true, false) // a failed sender closes its connection; a successful one lets the receiver drain
 			}
 		case err := <-rdone:
 			res.recvErr, res.recvDone = err, true
 			if err != nil {
-				b.Close()
+				closeSide(false, false)
 			}
 		case <-timer:
 			res.dur = time.Since(t0)
-			// unblock whatever hangs so that no goroutine outlives the case
 			scancel()
 			rcancel()
-			a.Fail(memnet.ErrAbrupt, memnet.ErrAbrupt)
+			kill()
 			drain := time.After(2 * time.Second)
 			for !(res.sendDone && res.recvDone) {
 				select {
@@ -282,7 +309,7 @@ func runXfer(srcDir, outDir string, c xferCfg) xferResult {
 		}
 	}
 	res.dur = time.Since(t0)
-	a.Close()
+	closeSide(true, true)
 	return res
 }
 
